@@ -8,7 +8,12 @@ FlowSets == {[idle |-> 100, approach |-> 300, climb |-> 900, takeoff |-> 1100],
 \* One carrier per flight, spread deterministically over the flights.
 Carriers == <<"container", "plain_float", "plain_int">>
 Carrier == Carriers[((N + flt.nc + 2 * flt.nd + (TrajFuel \div 1000) + (IF gse THEN 1 ELSE 0)) % 3) + 1]
-Emit == PrintT("@@" \o ToJson([n |-> N, carrier |-> Carrier, burn |-> [i \in 1..N |-> SegBurn(i)], nc |-> flt.nc, nd |-> flt.nd,
+\* The altitude profile the flight is realised on: "high" climbs through the stratosphere, "low" is a short hop that
+\* stays below 2.5 km (estimates that look at the top of the flight - MEEM - see a different flight).  The balance
+\* does not depend on it.  One profile per flight, spread deterministically.
+AltProfiles == <<"high", "low">>
+AltProfile == AltProfiles[((N + 2 * flt.nc + flt.nd + (IF mode = "lto" THEN 1 ELSE 0)) % 2) + 1]
+Emit == PrintT("@@" \o ToJson([n |-> N, carrier |-> Carrier, profile |-> AltProfile, burn |-> [i \in 1..N |-> SegBurn(i)], nc |-> flt.nc, nd |-> flt.nd,
                                mode |-> mode, flows |-> flows, apu |-> apu, gse |-> gse,
                                window |-> [i \in 1..N |-> InWindow(i)], trajfuel |-> TrajFuel,
                                ltofuel |-> [m \in {"idle", "approach", "climb", "takeoff"} |-> LtoFuel(m)],
